@@ -336,4 +336,23 @@ def faults():
         ocp.solver("ipopt")
         return ocp
     F["clone-made-before-the-template-got-its-last-derivative"] = clone_rule_cleared
+
+    # the fault is introduced AFTER a first (valid) transcription: the next one must notice it
+    def late_state(kind):
+        def f(m):
+            ocp, s = _ok(m)
+            ocp._transcribed
+            if kind == "state":
+                ocp.state()
+            elif kind == "quadrature":
+                ocp.state(quad=True)
+            elif kind == "registered":
+                ocp.register_state(ca.MX.sym("late"))
+            elif kind == "parameter":
+                q = ocp.parameter()
+                ocp.subject_to(s["x"][0] <= q)
+            return ocp
+        return f
+    for kind in ("state", "quadrature", "registered", "parameter"):
+        F["%s-without-%s-declared-after-a-first-transcription" % (kind, "value" if kind == "parameter" else "derivative")] = late_state(kind)
     return F
